@@ -5,7 +5,7 @@ CONSTANTS
   Shapes = {"named", "tuple", "unit"}
   Forms = {"same", "struct", "tuple", "bare", "unit"}
   SGs = {0, 1}
-  SGModes = {"both", "split"}
+  SGModes = {"both", "split", "ded"}
   VarsSet = {0}
   Upds = {FALSE}
   TupleGhosts = TRUE
